@@ -477,9 +477,25 @@ def enum_rules(ctx, item):
         evp, evok = item.vis_path(valt)
         det = 'repr %s; variants over %s %s; name %s value %s (%s); default alt %s; vis %s' % (pr[0], base[-40:], chain, pn1[0], pv1[0], pv1[3], labs[0][:90], evp)
         cast = c1 or c2
+        # the marker test written as `default_index == Some(idx)` instead of `default_index.is_some_and(|i| i == idx)`
+        direct_marker = False
+        try:
+            arm0 = item.alts[int(dalt)][3][0]
+            for c_ in arm0:
+                ce = c_[0] if isinstance(c_, tuple) and c_ and isinstance(c_[0], tuple) else c_
+                ce = strip(ce)
+                if ce[0] == 'call' and re.search(r'::eq$', ce[1]) and len(ce[2]) == 2:
+                    a_, b_ = strip(ce[2][0]), strip(ce[2][1])
+                    if a_[0] == 'agg':
+                        a_, b_ = b_, a_
+                    if b_[0] == 'agg' and b_[1].endswith('Option::Some') and b_[2] and strip(b_[2][0][1])[0] == 'field' and strip(b_[2][0][1])[2] == '0' and \
+                            strip(strip(b_[2][0][1])[1])[0] in ('arg', 'carg') and (a_[0] == 'upvar' or (a_[0] == 'field' and a_[2] == 'default_index')):
+                        direct_marker = True
+        except Exception:
+            direct_marker = False
         ok = (pr[0] is not None and pr[0].endswith('.type_') and 'sa_type_to_syn_type' in pr[1] and base.endswith('.fields') and chain == ['iter', 'enumerate', 'map'] and r[2] == ',' and
               pn1[0] == pn2[0] and pv1[0] == pv2[0] and pn1[0] is not None and pv1[0] is not None and pn1[0].endswith('.1.0') and pv1[0].endswith('.1.1') and
-              'is_some_and' in labs[0] and labs[0].endswith('=True') and evok and evp == 'definition.visibility')
+              ('is_some_and' in labs[0] or direct_marker) and labs[0].endswith('=True') and evok and evp == 'definition.visibility')
         # default marker: default_index == enumerate index
         dlab = labs[0]
         okd = False
@@ -489,7 +505,7 @@ def enum_rules(ctx, item):
                 if len(ex) == 1 and ex[0]['expr'][0] == 'bin' and ex[0]['expr'][1] == 'Eq':
                     a, b = strip(ex[0]['expr'][2]), strip(ex[0]['expr'][3])
                     okd = {a[0], b[0]} == {'arg', 'upvar'}
-        ctx.ob(['C08', 'C13'], 'R-TMPL', 'enum|default-marker', okd and 'upvar0' in dlab,
+        ctx.ob(['C08', 'C13'], 'R-TMPL', 'enum|default-marker', (okd or direct_marker) and 'upvar0' in dlab,
                '#[default] is put on the variant whose enumerate index equals default_index: %s' % dlab[:100], where)
         vec = [h for h in item.fl.holes if h[0] == int(vi) and h[1][0] == 'vec']
         okdv = False
@@ -723,6 +739,12 @@ def fn_rules(ctx, fn):
         vals = [(x['expr'], x['block']) for x in flt.exits()]
         det = 'switches %s values %s' % ([show(s_['cond']) for s_ in sw], [show(v) for v, _ in vals])
         okf = len(sw) == 1 and (show(sw[0]['cond']) in ('Not(upvar0)', 'upvar0')) and any(v == ('int', 1, 'bool') for v, _ in vals) and any(v[0] == 'un' and v[1] == 'Not' and is_call_(v[2], 'Argument::is_self') for v, _ in vals)
+        if not okf:
+            # any other spelling of the same truth table (`!(is_field && a.is_self())`, ..): kept = not (field body and receiver)
+            from r_access import table
+            tt = table(P, flt, [(r'^upvar0$', None), (r'Argument::is_self', None)], [(a_, b_) for a_ in (True, False) for b_ in (True, False)])
+            okf = all(tt.get((a_, b_)) is (not (a_ and b_)) for a_ in (True, False) for b_ in (True, False))
+            det += ' table %s' % {k_: v_ for k_, v_ in tt.items()}
         cap = [c_ for c_ in fn.f.calls(lambda r_: r_['path'] and r_['path'].endswith('FunctionBody::is_field'))]
         okf = okf and len(cap) == 1
     isf = [x for x in P.fns.values() if x.id.endswith('FunctionBody::is_field')]
